@@ -39,6 +39,7 @@ const (
 	BodySeeker
 	BodyStream
 	BodyEmpty
+	BodySeekCloser // a seekable body whose Close really invalidates it (like *os.File)
 )
 
 // Caller context kinds for adapters.
@@ -339,6 +340,28 @@ func (t *simTransport) RoundTrip(req *http.Request) (*http.Response, error) {
 
 type seekBody struct{ *bytes.Reader }
 
+// closableSeeker fails every operation after Close, like a closed file.
+type closableSeeker struct {
+	r      *bytes.Reader
+	closed bool
+}
+
+var errBodyClosed = errors.New("request body already closed")
+
+func (c *closableSeeker) Read(p []byte) (int, error) {
+	if c.closed {
+		return 0, errBodyClosed
+	}
+	return c.r.Read(p)
+}
+func (c *closableSeeker) Seek(off int64, whence int) (int64, error) {
+	if c.closed {
+		return 0, errBodyClosed
+	}
+	return c.r.Seek(off, whence)
+}
+func (c *closableSeeker) Close() error { c.closed = true; return nil }
+
 type streamBody struct{ r io.Reader }
 
 func (s streamBody) Read(p []byte) (int, error) { return s.r.Read(p) }
@@ -405,6 +428,9 @@ func (w *adapterWorld) runHTTP() {
 		body = streamBody{bytes.NewReader(w.body)}
 	case BodyEmpty:
 		body = http.NoBody
+	case BodySeekCloser:
+		w.body = patternBytes(spec.BodySize)
+		body = &closableSeeker{r: bytes.NewReader(w.body)}
 	}
 	w.setupContexts()
 	req, err := http.NewRequestWithContext(w.reqCtx, spec.Method, "http://sim.test/path?q=1", body)
